@@ -1,8 +1,8 @@
 SPECIFICATION GenSpec
 CONSTANTS
   Users = {"u1", "u2"}
-  Contents = {"a", "b"}
-  MaxMsgs = 3
+  Contents = {"a", "a~1", "a+a~1", "a+a", "a^md5+a", "b+a", "a+b", "b~e+b~L+b+b^md5"}
+  MaxMsgs = 2
   MaxRec = 40
   MaxTx = 40
   IdScheme = "counter"
